@@ -6,7 +6,7 @@ CONSTANTS
   QTypes <- QTypesQ9
   Vals = {1, 2}
   ValsOf <- C09ValsOf
-  OpFamilies = {"W", "U"}
+  OpFamilies = {"W", "U", "B"}
   Writers = {"w1", "w2"}
   Readers = {"r1"}
   MaxVer = 1
